@@ -31,7 +31,7 @@ type lrun struct {
 type lpara struct {
 	Kind  string // p, h, li
 	Runs  []lrun
-	Level int    // h: 1..9; li: 0-based nesting
+	Level int    // h: 1..9 (odt: 1..10); li: 0-based nesting
 	Via   string // h: builtin, custom, inherited, inherited2, name, outline, cyclic; p: "", quote, boldsmall, bigbold, cycplain
 	NumID int    // li: which list (1..3)
 	Fam   string // h via family, or a cell paragraph: the style of the document's style family it uses
@@ -314,6 +314,9 @@ func (d *ldoc) genPara(r *hx.Rng) *lpara {
 
 func (d *ldoc) genHeading(r *hx.Rng) *lpara {
 	p := &lpara{Kind: "h", Runs: d.genRuns(r, 0), Level: r.Range(1, 9)}
+	if d.Format == "odt" && p.Level == 9 && r.Chance(1, 2) {
+		p.Level = 10 // ODF outline levels run to 10
+	}
 	if d.Styles {
 		p.Via = hx.Pick(r, []string{"builtin", "custom", "inherited", "inherited2", "name", "outline", "cyclic"})
 	} else {
